@@ -182,7 +182,19 @@ def write_md(results):
              '| status | file | mutation | caught by | undecided |', '|---|---|---|---|---|']
     for r in sorted(valid, key=lambda r: (r['status'], r['file'])):
         lines.append('| %s | %s | %s | %s | %s |' % (r['status'], r['file'], r['mutation'].replace('|', '/'), ' '.join(r.get('caught_by', [])), ' '.join(r.get('undecided', []))))
+    lines += ['', '## Triage of survivors', '']
+    for r in valid:
+        if r['status'] == 'survived':
+            lines.append('* `%s`: %s - %s' % (r['file'], r['mutation'], TRIAGE.get((r['file'], r['mutation']), 'not triaged yet')))
     open(os.path.join(VERIF, 'selftest', 'MUTATION.md'), 'w').write('\n'.join(lines) + '\n')
+
+
+TRIAGE = {
+    ('src/layouts/fi_se105.rs', 'KeyCode::E -> KeyCode::Key0'):
+        'equivalent with respect to the properties: the renamed arm is shadowed by the earlier Key0 arm, so KeyCode::E falls through to the US layout and only '
+        'loses its AltGr level (the euro sign). No property requires a non-ASCII AltGr character to exist (C03 constrains AltGr characters that are present, '
+        'C12 only the 95 ASCII characters).',
+}
 
 
 if __name__ == '__main__':
